@@ -358,6 +358,7 @@ pub fn eval_line(tag: &str, gf: &GF, text: &str, st: &mut Stats) -> String {
         Parsed::Panic(_) => { st.hit("parse.panic"); format!("{}|eval|{}|PANIC|-", tag, ser_gf(gf, &HashMap::new())) }
         Parsed::Ok(pf) => {
             let ids = id_table(&pf);
+            crate::watchdog::enter_div(text, format!("{}|eval|{}|{}|DIVERGE", tag, ser_gf(gf, &ids), ser_real(&pf.bdd)));
             let res = match eval_guarded(&pf) {
                 Ok(b) => { st.hit(if b.is_const() { "result.const" } else { "result.choice" }); show_ns(&b) }
                 Err(_) => { st.hit("eval.panic"); "PANIC".to_string() }
@@ -501,9 +502,9 @@ pub fn c01(out: &mut dyn Write, tier: &str, rng: &mut Rng, st: &mut Stats) {
     }
 }
 
-pub fn c06(out: &mut dyn Write, tier: &str, rng: &mut Rng, st: &mut Stats) {
-    let n = if tier == "thorough" { 20000 } else { 1500 };
-    for i in 0..n {
+/// a fixed point at the root with a body that is monotone in its bound name: random positive bodies, and
+/// the template in which a quantified variable reaches the body only through the iterate (several rounds)
+pub fn c06_formula(rng: &mut Rng, i: usize, st: &mut Stats) -> GF {
         // few other variables so that the exhaustive fixed-point oracle applies often
         let k = 1 + rng.below(if i % 3 == 0 { 4 } else { 3 }) as usize;
         let mut names: Vec<String> = Vec::new();
@@ -542,6 +543,13 @@ pub fn c06(out: &mut dyn Write, tier: &str, rng: &mut Rng, st: &mut Stats) {
             let body = g.gen(depth, &p);
             GF::Fix(x, g.rng.chance(1, 2), Box::new(body))
         };
+        gf
+}
+
+pub fn c06(out: &mut dyn Write, tier: &str, rng: &mut Rng, st: &mut Stats) {
+    let n = if tier == "thorough" { 20000 } else { 1500 };
+    for i in 0..n {
+        let gf = c06_formula(rng, i, st);
         count_kinds(&gf, st);
         let text = Printer { rng, noise: false }.print(&gf);
         let line = eval_line("C06", &gf, &text, st);
